@@ -40,6 +40,9 @@ def run(tier, rep):
         if len(lines) != 2 or lines[0] != lines[1]:
             rep.violation(c["ident"], {"method_form_prints": lines[:1], "type_qualified_form_prints": lines[1:2], "source": c["text"]}, replay={"path": c["path"]})
     rep.coverage["overlapping_inherent_impls_compared"] = compared
+    # ---- Resolve.tla: the resolution rules as a model, every (configuration, call form) replayed through the compiler
+    import resolve
+    resolve.run(rep, tier)
     rep.assumptions += famcheck.STD_ASSUMPTIONS
     if counts.get("agree", 0) < 12:
         raise ToolError("vacuity: fewer than 12 call-form programs compared")
